@@ -94,7 +94,7 @@ CHECKS = {
     "C13": dict(
         cat="exploration", ref="4 C13",
         technique="grammar-based + mutation-based generation of byte strings, differential against tri-state reference parsers; libFuzzer target with the same oracle in the thorough tier",
-        text="Millions of byte strings per run for both readers: grammar-based well-formed files with all format-defined decorations, targeted corruptions of each listed ill-formedness class, byte-level mutations, token soup, raw bytes (invalid UTF-8, NUL). No panic; Accept => exactly the declared labels in order and attack set; Reject => Err; Unspecified => Err or the natural reading; read_arg_from_str in and out of range. Line-lengthening mutations reach 2^16 units one time in 1009; one file in 3000 is a large ICCMA'23 file (up to 100000 arguments). Invalid UTF-8: the reader may refuse, or must return the framework of the text with the offending bytes replaced. One streamed well-formed input above 2^32 bytes per format (Aspartix: thorough only); indices at the bounds of the machine integers; reader objects reused after failed reads.",
+        text="Millions of byte strings per run for both readers: grammar-based well-formed files with all format-defined decorations, targeted corruptions of each listed ill-formedness class, byte-level mutations, token soup, raw bytes (invalid UTF-8, NUL). No panic; Accept => exactly the declared labels in order and attack set; Reject => Err; Unspecified => Err or the natural reading; read_arg_from_str in and out of range. Line-lengthening mutations reach 2^16 units one time in 1009; one file in 3000 is a large ICCMA'23 file (up to 100000 arguments). Invalid UTF-8: the reader may refuse, or must return the framework of the text with the offending bytes replaced. One streamed well-formed input above 2^32 bytes per format (Aspartix: thorough only) and one ICCMA input with two comment lines above 2^27 bytes; indices at the bounds of the machine integers; reader objects reused after failed reads.",
         note="trusted: refparse.rs and its list of unspecified inputs (DESIGN.md 3.5); declared sizes >10^5 excluded and counted"),
     "C11": dict(
         cat="exploration", ref="4 C11",
